@@ -495,6 +495,22 @@ example : momentsFull (fun n => (n : Rat)) 2 2 [[1, 2], [3, 4]] 1 1 none true = 
     momentsFull (fun n => (n : Rat)) 2 2 [[1, 2], [3, 4]] 2 0 (some (1 / 2, 0)) true = 5 / 2 ∧
     momentsFull (fun n => (n : Rat)) 2 2 [[1, 2], [3, 4]] 2 0 (some (1 / 2, 0)) false = 5 / 2 := by decide +kernel
 
+/-- **C19-T5 (central moments are translation invariant).** Over every commutative ring, for the model of `moments`
+(= the defining sum, `C19_moments_def_any_ring`): putting a row of zeros on top of the image and moving the centre down by
+one, or a column of zeros to its left and moving the centre right by one, leaves every moment `(p0, p1)` unchanged — so
+moments about the centre of mass do not depend on where the object sits in the frame (iterate for any integer shift). -/
+theorem C19_moments_translation {R : Type} [CommRing R] (rows : List (List R)) (n p0 p1 : Nat) (c0 c1 : R) :
+    momentsSpec (Nat.cast : Nat → R) (List.replicate n 0 :: rows) p0 p1 (c0 + 1) c1 =
+      momentsSpec Nat.cast rows p0 p1 c0 c1 ∧
+    momentsSpec (Nat.cast : Nat → R) (rows.map fun r => (0 : R) :: r) p0 p1 c0 (c1 + 1) =
+      momentsSpec Nat.cast rows p0 p1 c0 c1 := by
+  rw [← Gen.moments_eq_spec, ← Gen.moments_eq_spec, ← Gen.moments_eq_spec]
+  exact ⟨Machine.moments_shift_rows rows n p0 p1 c0 c1, Machine.moments_shift_cols rows p0 p1 c0 c1⟩
+
+example : momentsSpec (Nat.cast : Nat → Int) [[0, 0], [1, 2], [3, 4]] 2 1 (1 + 1) 0 = 2 ∧
+    momentsSpec (Nat.cast : Nat → Int) [[1, 2], [3, 4]] 2 1 1 0 = 2 ∧
+    momentsSpec (Nat.cast : Nat → Int) [[0, 1, 2], [0, 3, 4]] 2 1 1 (0 + 1) = 2 := by decide
+
 /-- **C19-T6 (Zernike radial polynomial = textbook formula).** Over every field: `fact(n)` of `_zernike.cpp` (the extracted
 table below 13, the recursion `n·fact(n−1)` beyond) is `n!` for **every** `n`; the coefficient `g_m[m]` that `znl` tabulates
 is the textbook coefficient `(−1)^m (n−m)! / (m! ((n+l)/2 − m)! ((n−l)/2 − m)!)` of `ρ^(n−2m)` for every `m ≤ (n−l)/2`; the
